@@ -219,7 +219,7 @@ class World:
         out = Out()
         out.w('// GENERATED by /verif/vf/assemble.py from /repo -- do not edit.\n')
         out.w('#![allow(unused_imports, dead_code, unused_variables, unused_mut, unused_parens, non_snake_case, unused_braces, unused_assignments, unreachable_code, non_camel_case_types, unused_macros)]\n')
-        out.w('#![feature(slice_concat_trait, pattern)]\n')
+        out.w('#![feature(slice_concat_trait, pattern, allocator_api)]\n')
         out.w('use vstd::prelude::*;\n')
         out.w(open(os.path.join(VERIF, 'shim', 'macros.rs')).read())
         for sh in self.cfg['shim']:
@@ -510,7 +510,8 @@ class World:
         me = re.fullmatch(r'env!\("(CARGO_PKG_NAME|CARGO_PKG_VERSION)"\)', expr.strip())
         if me:
             val = self._cargo_pkg(m)[me.group(1)]
-            out.w(f'{vis}const {it["name"]}: &\'static str = {rust_str(val)};\n')
+            # made `pub` in the verified text so that contracts of pub functions may name it
+            out.w(f'pub const {it["name"]}: &\'static str = {rust_str(val)};\n')
             return
         if ty.strip() == '&str':
             out.w(f'{vis}const {it["name"]}: &\'static str = {expr};\n')
